@@ -193,6 +193,38 @@ theorem lowerE_field_inv {e : Expr} {i c : Nat} {code : Code} {v : Value} {c' : 
   obtain ⟨ce, ve, c1, h1, rfl, rfl, rfl⟩ := h
   exact ⟨ce, ve, c1, h1, rfl, rfl, rfl⟩
 
+/-- the pieces of a lowered `match` -/
+theorem lowerE_mtch_inv {s : Expr} {isOpt : Bool} {arms : Arms} {c : Nat} {code : Code} {v : Value} {c' : Nat}
+    (h : lowerE (.mtch s isOpt arms) c = some (code, v, c')) :
+    let nV := if isOpt then 2 else 3
+    let tb := if isOpt then 0 else 10
+    let ds := discsOf arms
+    (ds.any (fun k => decide (nV ≤ k)) = false) ∧
+    ∃ ce ve c1 ch0 c0 ch1 c1' ch2 c2 dflt c3 codes,
+      lowerE s c = some (ce, ve, c1) ∧
+      lowerChain arms (if ds.contains 0 then .variant 0 else .off) (atvVar ve c1) tb 0 (atvNext ve c1 + 1) = some (ch0, c0) ∧
+      lowerChain arms (if ds.contains 1 then .variant 1 else .off) (atvVar ve c1) tb 0 c0 = some (ch1, c1') ∧
+      lowerChain arms (if ds.contains 2 then .variant 2 else .off) (atvVar ve c1) tb 0 c1' = some (ch2, c2) ∧
+      lowerChain arms (if hasWild arms && !((List.range nV).all (fun k => ds.contains k)) then .wildOnly else .off)
+        (atvVar ve c1) tb 0 c2 = some (dflt, c3) ∧
+      lowerArms arms (.t c3) (c3 + 1) = some (codes, c') ∧
+      code = ce ++ atvCode ve c1 ++ [.assign (.t (atvNext ve c1)) (.disc (atvVar ve c1)),
+        .mtch (.t (atvNext ve c1))
+          ((if ds.contains 0 then [GChain.mk 0 ch0] else []) ++ (if ds.contains 1 then [GChain.mk 1 ch1] else [])
+            ++ (if ds.contains 2 then [GChain.mk 2 ch2] else [])) dflt codes] ∧
+      v = .move (.t c3) := by
+  intro nV tb ds
+  simp only [lowerE, Option.pure_def, Option.bind_eq_bind] at h
+  by_cases hany : (ds.any (fun k => decide (nV ≤ k))) = true
+  · rw [if_pos hany] at h; simp at h
+  · rw [if_neg hany] at h
+    simp only [Option.bind_eq_some_iff] at h
+    obtain ⟨⟨ce, ve, c1⟩, h1, ⟨ch0, c0⟩, h2, ⟨ch1, c1'⟩, h3, ⟨ch2, c2⟩, h4, ⟨dflt, c3⟩, h5, ⟨codes, c4⟩, h6, h7⟩ := h
+    simp only [Option.some.injEq, Prod.mk.injEq] at h7
+    obtain ⟨rfl, rfl, rfl⟩ := h7
+    refine ⟨by simpa using hany, ce, ve, c1, ch0, c0, ch1, c1', ch2, c2, dflt, c3, codes, h1, h2, h3, h4, h5, h6, ?_, rfl⟩
+    simp [List.append_assoc, ds]
+
 /-- A `Move` names a temporary allocated below the counter. -/
 def MoveBound (v : Value) (c : Nat) : Prop :=
   match v with
@@ -332,11 +364,55 @@ theorem lowerE_mono : ∀ (e : Expr) (c : Nat) (code : Code) (v : Value) (c' : N
       have ⟨a1, _⟩ := atv_spec ve c1 b1
       exact ⟨by omega, trivial⟩
   | .call .., _, _, _, _, h => by simp [lowerE] at h
-  | .mtch .., _, _, _, _, h => by simp [lowerE] at h
+  | .mtch s isOpt arms, c, code, v, c', h => by
+    obtain ⟨_, ce, ve, c1, ch0, c0, ch1, c1', ch2, c2, dflt, c3, codes, h1, h2, h3, h4, h5, h6, _, rfl⟩ := lowerE_mtch_inv h
+    have ⟨m1, b1⟩ := lowerE_mono s c ce ve c1 h1
+    have ⟨a1, _⟩ := atv_spec ve c1 b1
+    have m2 := lowerChain_mono arms _ _ _ _ _ ch0 c0 h2
+    have m3 := lowerChain_mono arms _ _ _ _ _ ch1 c1' h3
+    have m4 := lowerChain_mono arms _ _ _ _ _ ch2 c2 h4
+    have m5 := lowerChain_mono arms _ _ _ _ _ dflt c3 h5
+    have m6 := lowerArms_mono arms _ _ codes c' h6
+    exact ⟨by omega, ⟨c3, rfl, by omega⟩⟩
   | .for .., _, _, _, _, h => by simp [lowerE] at h
   | .ctor .., _, _, _, _, h => by simp [lowerE] at h
   | .list .., _, _, _, _, h => by simp [lowerE] at h
   | .fstr .., _, _, _, _, h => by simp [lowerE] at h
+theorem lowerChain_mono : ∀ (arms : Arms) (sel : Sel) (xe : Var) (tb idx c : Nat) (steps : List GStep) (c' : Nat),
+    lowerChain arms sel xe tb idx c = some (steps, c') → c ≤ c'
+  | .nil, sel, xe, tb, idx, c, steps, c', h => by simp [lowerChain] at h; omega
+  | .arm p body rest, sel, xe, tb, idx, c, steps, c', h => by
+    simp only [lowerChain] at h
+    split at h
+    · simp [Option.bind_eq_some_iff] at h
+      obtain ⟨st, h1, _⟩ := h
+      exact lowerChain_mono rest sel xe tb (idx + 1) c st c' h1
+    · exact lowerChain_mono rest sel xe tb (idx + 1) c steps c' h
+  | .armG p g body rest, sel, xe, tb, idx, c, steps, c', h => by
+    simp only [lowerChain] at h
+    split at h
+    · simp [Option.bind_eq_some_iff] at h
+      obtain ⟨cg, vg, c1, h1, st, h2, _⟩ := h
+      have ⟨m1, b1⟩ := lowerE_mono g c cg vg c1 h1
+      have ⟨a1, _⟩ := atv_spec vg c1 b1
+      have := lowerChain_mono rest sel xe tb (idx + 1) _ st c' h2
+      omega
+    · exact lowerChain_mono rest sel xe tb (idx + 1) c steps c' h
+theorem lowerArms_mono : ∀ (arms : Arms) (out : Var) (c : Nat) (codes : List Code) (c' : Nat),
+    lowerArms arms out c = some (codes, c') → c ≤ c'
+  | .nil, out, c, codes, c', h => by simp [lowerArms] at h; omega
+  | .arm p body rest, out, c, codes, c', h => by
+    simp [lowerArms, Option.bind_eq_some_iff] at h
+    obtain ⟨cb, xb, c1, h1, cs, h2, _⟩ := h
+    have ⟨m1, _⟩ := lowerBlock_mono body c cb xb c1 h1
+    have := lowerArms_mono rest out c1 cs c' h2
+    omega
+  | .armG p g body rest, out, c, codes, c', h => by
+    simp [lowerArms, Option.bind_eq_some_iff] at h
+    obtain ⟨cb, xb, c1, h1, cs, h2, _⟩ := h
+    have ⟨m1, _⟩ := lowerBlock_mono body c cb xb c1 h1
+    have := lowerArms_mono rest out c1 cs c' h2
+    omega
 theorem lowerFields_mono : ∀ (es : Exprs) (to : Var) (i c : Nat) (code : Code) (c' : Nat),
     lowerFields es to i c = some (code, c') → c ≤ c'
   | .nil, to, i, c, code, c', h => by simp [lowerFields] at h; omega
@@ -398,7 +474,7 @@ def Value.vars : Value → List Var
   | .neg x => [x]
   | .callRt _ args => args
   | .disc x => [x]
-  | .cloneProj x _ => [x]
+  | .cloneProj x _ _ => [x]
   | .cloneField x _ => [x]
 
 /-- every temporary the operand reads was allocated below the counter -/
@@ -528,7 +604,10 @@ theorem lowerE_valueBound (e : Expr) (c : Nat) (code : Code) (v : Value) (c' : N
     obtain ⟨_, _, _, _, _, rfl, _⟩ := h
     simp [Value.vars] at hk
   | call f args => simp [lowerE] at h
-  | mtch s arms => simp [lowerE] at h
+  | mtch s isOpt arms =>
+    have hm := (lowerE_mono _ c code v c' h).2
+    obtain ⟨_, _, _, _, _, _, _, _, _, _, _, _, _, _, _, _, _, _, _, _, rfl⟩ := lowerE_mtch_inv h
+    obtain ⟨k', hk', hlt⟩ := hm; cases hk'; simp [Value.vars] at hk; omega
   | «for» x l b => simp [lowerE] at h
   | ctor k args => simp [lowerE] at h
   | record fs =>
@@ -546,5 +625,90 @@ theorem lowerE_valueBound (e : Expr) (c : Nat) (code : Code) (v : Value) (c' : N
       exact atv_bound ve c1 b1 hk.symm
   | list es => simp [lowerE] at h
   | fstr ps => simp [lowerE] at h
+
+/-! ### `match`: binders and patterns -/
+
+theorem payload_fieldsOf {v : Val} (h : (discOf v).isSome) (i : Nat) : payload v i = (fieldsOf v)[i]? := by
+  cases v with
+  | opt o => cases o <;> cases i <;> simp [payload, fieldsOf]
+  | enm k fs => simp [payload, fieldsOf]
+  | verdict b n => cases i <;> simp [payload, fieldsOf]
+  | _ => simp [discOf] at h
+
+/-- the binders of a pattern, assigned from the examinee's fields -/
+theorem exec_binds {ke tag : Nat} : ∀ (bs : List Nat) (fs : List Int) (env env1 : Env) (σ : Store) (j : Nat),
+    (∀ i, payload (σ (.t ke)) (j + i) = fs[i]?) → bindAll bs fs env = some env1 → Agree env σ →
+    ∃ σ1, ExecC σ (bindsCode bs (.t ke) tag j) [] (.normal σ1) ∧ Agree env1 σ1 ∧ (∀ k, σ1 (.t k) = σ (.t k))
+  | [], fs, env, env1, σ, j, hp, hb, ha => by
+    cases fs with
+    | nil => simp [bindAll] at hb; subst hb; exact ⟨σ, .nil, ha, fun _ => rfl⟩
+    | cons f fs => simp [bindAll] at hb
+  | b :: bs, fs, env, env1, σ, j, hp, hb, ha => by
+    cases fs with
+    | nil => simp [bindAll] at hb
+    | cons f fs =>
+      simp only [bindAll] at hb
+      cases hl : lookup env b with
+      | some _ => simp [hl] at hb
+      | none =>
+        simp only [hl] at hb
+        have h0 : payload (σ (.t ke)) j = some f := by simpa using hp 0
+        have s1 : ExecS σ (.assign (.x b) (.cloneProj (.t ke) j tag)) [] (.normal (σ.set (.x b) (.int f))) :=
+          .assign (by simp [evalValue, h0])
+        have hxe : (σ.set (.x b) (.int f)) (.t ke) = σ (.t ke) := set_other _ _ (by intro h; cases h)
+        obtain ⟨σ1, hx, ha1, hk⟩ := exec_binds bs fs ((b, .int f) :: env) env1 (σ.set (.x b) (.int f)) (j + 1)
+          (by intro i; rw [hxe]; have := hp (i + 1); simpa [Nat.add_assoc, Nat.add_comm 1 i] using this) hb (ha.cons b _)
+        refine ⟨σ1, ?_, ha1, fun k => by rw [hk k]; exact set_other _ _ (by intro h; cases h)⟩
+        simpa [bindsCode] using ExecC.cons s1 hx
+
+/-- … of a whole pattern -/
+theorem exec_patBinds {ke tb : Nat} (p : Pat) (v : Val) (env env1 : Env) (σ : Store)
+    (hv : σ (.t ke) = v) (hd : (discOf v).isSome) (hb : bindPat env v p = some env1) (ha : Agree env σ) :
+    ∃ σ1, ExecC σ (patBinds p (.t ke) tb) [] (.normal σ1) ∧ Agree env1 σ1 ∧ (∀ k, σ1 (.t k) = σ (.t k)) := by
+  cases p with
+  | wild => simp [bindPat] at hb; subst hb; exact ⟨σ, by simpa [patBinds] using ExecC.nil, ha, fun _ => rfl⟩
+  | variant k bs =>
+    simp only [bindPat] at hb
+    simpa [patBinds] using exec_binds (tag := tb + k) bs (fieldsOf v) env env1 σ 0
+      (by intro i; rw [hv]; simpa using payload_fieldsOf hd i) hb ha
+
+def patsOf : Arms → List Pat
+  | .nil => []
+  | .arm p _ rest => p :: patsOf rest
+  | .armG p _ _ rest => p :: patsOf rest
+
+theorem mem_discsOf : ∀ (arms : Arms) (k : Nat) (bs : List Nat), Pat.variant k bs ∈ patsOf arms → k ∈ discsOf arms
+  | .nil, k, bs, h => by simp [patsOf] at h
+  | .arm p _ rest, k, bs, h => by
+    simp only [patsOf, List.mem_cons] at h
+    cases p with
+    | wild => simp [discsOf]; rcases h with h | h; · cases h
+              exact mem_discsOf rest k bs h
+    | variant k' bs' =>
+      simp only [discsOf, List.mem_cons]
+      rcases h with h | h
+      · cases h; exact Or.inl rfl
+      · exact Or.inr (mem_discsOf rest k bs h)
+  | .armG p _ _ rest, k, bs, h => by
+    simp only [patsOf, List.mem_cons] at h
+    cases p with
+    | wild => simp [discsOf]; rcases h with h | h; · cases h
+              exact mem_discsOf rest k bs h
+    | variant k' bs' =>
+      simp only [discsOf, List.mem_cons]
+      rcases h with h | h
+      · cases h; exact Or.inl rfl
+      · exact Or.inr (mem_discsOf rest k bs h)
+
+theorem not_hasWild : ∀ (arms : Arms), hasWild arms = false → Pat.wild ∉ patsOf arms
+  | .nil, _ => by simp [patsOf]
+  | .arm p _ rest, h => by
+    cases p with
+    | wild => simp [hasWild] at h
+    | variant k bs => simp [hasWild] at h; simp [patsOf]; exact not_hasWild rest h
+  | .armG p _ _ rest, h => by
+    cases p with
+    | wild => simp [hasWild] at h
+    | variant k bs => simp [hasWild] at h; simp [patsOf]; exact not_hasWild rest h
 
 end RotoV.LowerS
